@@ -34,6 +34,10 @@ CHECKS = {
    technique="deterministic simulation with fault injection: the modulation-free configuration of the link simulator — the simulator owns the channel between encoder and hard decoder and injects exactly-w bit flips (w <= advertised t) or arbitrary received words from an explicit, replayable plan; strict oracle for clause 1, deliberately narrowed oracle (distance of the answer = minimum distance to the codebook) for clause 2",
    text="Seeded search over (code, hard decoder, messages, flip patterns / received words) with a deterministic walk over messages and patterns for codes with n <= 15. Sampling, not the exhaustive sweep the quantifier text mentions; the evidence reports how many distinct patterns per small code the batch visited.",
    note="Trusted: advertised d; reference codebook enumerated by encoding all 2^k messages with the real encoder (k <= 12); one block per row."),
+ "C05": dict(engine="histsim", design="§5.3",
+   technique="deterministic simulation of call histories: a seeded, replayable pre-history of mode toggles, train/eval forwards on differing batch shapes and resets drives one modulator/demodulator pair, then the post-reset eval-mode round trip through an ideal channel is compared with a reference model of each scheme's start-up loss; sequences walk every symbol and every ordered symbol pair",
+   text="Seeded search over (scheme, order, labeling, construction path, pre-history, layout, bit sequence). For memoryless schemes this degenerates to the zero-fault configuration of the link; for DPSK/OQPSK/pi4-QPSK the history is what makes the state matter. Evidence over sampled histories; all-symbol and all-pair sequences are exhaustive per case for orders <= 16.",
+   note="Trusted: the 20-line reference of start-up loss (DPSK drops the reference symbol's bits; OQPSK delays Q by one symbol, first Q slot unspecified); nothing asserted about train-mode outputs or pre-history calls."),
 }
 
 NOT_APPLICABLE = {
